@@ -331,6 +331,10 @@ def run(ctx):
                 I6.run_fn(c06.FN)
                 c06.bind(cfg, crate, I6, rep, "%s|%s" % (cfg, c06.FN))
             common.borrow_rules(rep, _c06, "C06.", "C07.key")
+            # "parsing it back returns the requested subject name": the request's Name comes back through the shared Name
+            # importer (tag table, values unaltered, refusals instead of silent changes)
+            import c03
+            common.borrow_rules(rep, lambda: c03.check_import(cfg, crate, rep), "C03.", "C07.name")
             # "exactly the requested key usages": the shared KeyUsage writer ORs one distinct bit per purpose
             import c02
             c02.ku_encoding(cfg, crate, rep, rule="C07.ku")
